@@ -58,6 +58,11 @@ def trace_check(prop, tier, seed, scenarios, mcs, level_note_extra=None, run_tim
     # runs that were rejected at construction / initialisation carry no cfg: they are judged by C16, not here,
     # but must not silently shrink the evidence
     rejected = [d for d in docs if d["cfg"] is None]
+    # a run that does not come back within the wall-clock limit is a non-termination verdict (C07 "the run always terminates", C16)
+    if prop in ("C07", "C16"):
+        for d in docs:
+            if d["outcome"]["status"] == "timeout":
+                V.add("nontermination", d.get("scenario"), d["outcome"])
     if extra_judge:
         extra_judge(V, docs)
     rc = V.report()
